@@ -55,15 +55,22 @@ res={}
 rf=f'{ROOT}/seeded/RESULTS.txt'
 if os.path.exists(rf):
     for l in open(rf):
-        m=re.match(r'(\S+) check=(\S+) rc=(\d+) (\S+) (\d+)s ?(.*)',l)
-        if m: res[m.group(1)]=(m.group(2),m.group(4),m.group(6))
+        m=re.match(r'(\S+) check=(\S+) rc=(\d+) (\S+) (?:(\d+)s ?)?(.*)',l)
+        if m:
+            prev=res.get(m.group(1))
+            first=prev[3] if prev else m.group(4)
+            st=m.group(4)
+            if st.startswith('DETECTED') and first.startswith('MISSED'): st='DETECTED after follow-up (first run: MISSED)'
+            note=re.match(r'\s*(\([^)]*\))',m.group(6) or '')
+            if note: st+=' '+note.group(1)[:220]
+            res[m.group(1)]=(m.group(2),st,m.group(6),first)
 for d in sorted(glob.glob(f'{ROOT}/seeded/C*-*')):
     name=os.path.basename(d)
     meta={}
     if os.path.exists(d+'/meta.json'):
         try: meta=json.load(open(d+'/meta.json'))
         except Exception: pass
-    r=res.get(name,('?','not run',''))
+    r=res.get(name,('?','not run','',''))
     sigs=' '.join(sorted(set(re.findall(r'sig=(\S+)',r[2]))))[:160]
     what=(meta.get('breaks','')+' — needs: '+meta.get('needs_to_manifest',''))[:260].replace('|','/')
     out.append(f"| {name} | {name.split('-')[0]} | {what} | {meta.get('confirmed','?')} | {r[0]} quick: {r[1]} | {sigs} |")
